@@ -56,8 +56,9 @@ def _is_call(n):
 
 
 @st.composite
-def _focus_path(draw, older):
-    """Follow existing mapping keys for 0-3 steps (never through call nodes / lists)."""
+def _focus_path(draw, older, end_any=False):
+    """Follow existing mapping keys for 0-3 steps (never through call nodes / lists); with end_any the last step may land
+    on a list or scalar entry (a deleting / merging node of one kind meeting an older node of another kind)."""
     path = []
     cur = older
     for _ in range(draw(st.sampled_from([0, 1, 1, 2, 2, 3]))):
@@ -67,6 +68,10 @@ def _focus_path(draw, older):
         k, v = cands[draw(st.integers(0, len(cands) - 1))]
         path.append(k)
         cur = v
+    if end_any and draw(st.integers(0, 2)) == 0:
+        cands = [k for k, v in cur['items'] if v['t'] in ('seq', 'sc') and not _is_call(v)]
+        if cands:
+            path.append(cands[draw(st.integers(0, len(cands) - 1))])
     return path
 
 
@@ -96,6 +101,30 @@ def _content(draw, ancestors, depth=0, kind=None, inner_prio=False):
     return tdoc.mp(items, flow=draw(st.booleans()))
 
 
+@st.composite
+def _mirror(draw, old, depth=0):
+    """Newer content shaped after the older subtree: a subset of its keys (recursing into containers, so that lists and
+    mappings of the newer side meet older ones of the same kind at depth), lists shorter or longer than the older ones, and
+    the odd new key."""
+    if old['t'] == 'seq' and not _is_call(old):
+        n = draw(st.integers(0, len(old['items']) + 1))
+        return tdoc.sq([draw(LEAF) for _ in range(n)], flow=draw(st.booleans()))
+    if old['t'] != 'map' or _is_call(old):
+        return draw(LEAF)
+    items = []
+    for k, v in old['items']:
+        if _is_call(v) or draw(st.integers(0, 3)) == 0:
+            continue
+        items.append([k, draw(_mirror(v, depth + 1))])
+    if not items or draw(st.integers(0, 2)) == 0:
+        k = draw(st.sampled_from(KEYS))
+        if not any(k == kk and type(k) is type(kk) for kk, _ in old['items']) and not any(k == kk for kk, _ in items):
+            items.append([k, draw(LEAF)])
+    if not items:
+        items.append(['zq', draw(LEAF)])
+    return tdoc.mp(items, flow=draw(st.booleans()))
+
+
 def _wrap(path, node, extras=None):
     cur = node
     for i, k in enumerate(reversed(path)):
@@ -109,7 +138,7 @@ def _case(draw):
     mode = draw(st.sampled_from(['a', 'a', 'b', 'b', 'c', 'd']))
     calls = [0] if mode == 'a' else None
     older = draw(_older(0, calls, protect=(mode == 'b')))
-    path = draw(_focus_path(older))
+    path = draw(_focus_path(older, end_any=mode in ('a', 'c')))
     case = {'mode': mode, 'older': older, 'path': path}
     if mode in ('a', 'b'):
         # the focus must be a mapping when it sits at depth 0 (a document root is a mapping)
@@ -137,7 +166,11 @@ def _case(draw):
                 chosen = draw(st.lists(st.sampled_from(ks), min_size=1, max_size=2, unique=True))
                 case['mid'] = {'path': mp_, 'items': [[k, 50 + i] for i, k in enumerate(chosen)]}
     elif mode == 'c':
-        focus = draw(_content(list(path), kind=None if path else 'map'))
+        if _get(older, path)['t'] != 'sc' and draw(st.booleans()):
+            focus = draw(_mirror(_get(older, path)))        # same shape as the older subtree: containers meet at depth
+            case['mirror'] = True
+        else:
+            focus = draw(_content(list(path), kind=None if path else 'map'))
         focus['del'] = False
         focus['mdstyle'] = draw(st.sampled_from(['short', 'braces']))
         case['focus'] = focus
@@ -273,6 +306,19 @@ def _m(a, b, inherited):
     return out
 
 
+def _old_list_at(old, rel):
+    """True iff the older AST has a list at the relative path (through mappings only)."""
+    cur = old
+    for k in rel:
+        if cur['t'] != 'map' or _is_call(cur):
+            return False
+        hit = [v for kk, v in cur['items'] if kk == k and type(kk) is type(k)]
+        if not hit:
+            return False
+        cur = hit[0]
+    return cur['t'] == 'seq' and len(cur['items']) > 0
+
+
 class _Skip(Exception):
     pass
 
@@ -367,6 +413,9 @@ def run_case(case):
     nontrivial = len(path) >= 1
     if mode in ('a', 'b', 'c'):
         focus = case['focus']
+        met = _get(older, path)['t']
+        if met != 'map':
+            labels.add('%s-focus-meets-older-%s' % (focus['t'], {'seq': 'list', 'sc': 'scalar'}[met]))
         anc = set(k for k in path if isinstance(k, str))
         if any(isinstance(p[-1], str) and p[-1] in anc for p, _ in tdoc.walk(focus) if p):
             labels.add('key-coincides-with-ancestor')
@@ -429,6 +478,10 @@ def run_case(case):
                 if O.canon_unordered(got) != O.canon_unordered(expected):
                     raise Violation(f'C04c: !merge node at {path} must combine key-wise / index-wise; got {got!r}, expected {expected!r}{src}')
                 labels.add('c-%s-onto-%s' % (focus['t'], type(old_at).__name__))
+                deep = [p for p, n in tdoc.walk(focus) if len(p) >= 2 and n['t'] == 'seq' and _old_list_at(_get(older, path), p)]
+                if deep:
+                    labels.add('c-inherited-merge-list-meets-list-at-depth>=2')
+                    nontrivial = True
     else:
         what, key = case['what'], case['key']
         mid_text = ''
